@@ -70,6 +70,8 @@ class SessionX(T.Session):
             return self._set_attr(op)
         if k == "add_node_nsinfo":
             return self._add_node_nsinfo(op)
+        if k == "add_component" and op.get("if_labels") is not None:
+            return self._add_component_labels(op)
         return super().apply(op)
 
     # -- helpers
@@ -200,6 +202,22 @@ class SessionX(T.Session):
         val = mk_value(spec)
         return self._run(lambda: setattr(h.obj, attr, val), lambda r: (None, None, None), line)
 
+    def _add_component_labels(self, op):
+        """Node.add_component(..., interface_labels=[<non-empty Labels or something else>, ...]) - oracle only (the model has
+        `Labels()` there: what the labels do to the generated interfaces is the catalogue's pure code)"""
+        from fim.slivers.attached_components import ComponentType
+        self.nops += 1
+        parent = self.handles[op["parent"]].obj
+        args = dict(name=op["name"], ctype=_enum(ComponentType, op.get("ctype")), model=op.get("model"),
+                    interface_labels=[mk_value(x) for x in op["if_labels"]], **kwargs_of(op.get("kw", [])))
+        if op.get("nid") is not None:
+            args["node_id"] = op["nid"]
+        if op.get("ns_nid") is not None:
+            args["network_service_node_id"] = op["ns_nid"]
+        if op.get("if_nids") is not None:
+            args["interface_node_ids"] = list(op["if_nids"])
+        return self._run(lambda: parent.add_component(**args), lambda r: (self.add_handle("comp", r), r.node_id, None), None)
+
     def _add_node_nsinfo(self, op):
         """Topology.add_node(..., ns_info=<NetworkServiceInfo with one service of the given id>) - oracle only"""
         from fim.slivers.network_node import NodeType
@@ -251,9 +269,9 @@ def gen_op_x(rng, sess, names, fault=0.0, ext=False, oracle_only=False, px=0.22)
     if connected and sps:
         menu += ["exotic_link"] * 2
     if nodes:
-        menu += ["remove_wrong_type"] * 2
+        menu += ["remove_wrong_type"] * 2 + ["node_remove_service"]
     if oracle_only and nodes:
-        menu += ["set_attr_image", "add_node_nsinfo"]
+        menu += ["set_attr_image", "add_node_nsinfo", "add_component_labels"]
     k = rng.choice(menu)
     if k == "add_switch_x":
         op = {"op": "add_switch", "name": names.new("sw"), "nid": names.nid(fl), "site": rng.choice(T.SITES), "nports": rng.choice([1, 2, 3])}
@@ -344,9 +362,27 @@ def gen_op_x(rng, sess, names, fault=0.0, ext=False, oracle_only=False, px=0.22)
         return op
     if k == "set_attr_image":
         h = rng.choice(nodes)
+        if rng.random() < 0.4:          # a stored (reference, type) pair for the setters to read
+            return {"op": "set_props", "h": h.key, "kw": [["image_ref", ["str", "img0"]], ["image_type", ["str", "qcow2"]]], "single": False}
         attr = rng.choice(["image_ref", "image_type"])
         val = rng.choice([["str", "img1"], ["str", "qcow2"], ["none"], ["int", 5], ["str", "a,b"]])
         return {"op": "set_attr", "h": h.key, "attr": attr, "val": val}
+    if k == "add_component_labels":
+        p = rng.choice(nodes)
+        good = [["lab", {"bdf": "0000:41:00.%d" % j, "mac": "0C:42:A1:EA:C7:5%d" % j}] for j in range(2)]
+        op = {"op": "add_component", "parent": p.key, "name": names.new("c"), "nid": names.nid(fl, True), "ctype": "SmartNIC",
+              "model": "ConnectX-6", "ns_nid": names.nid(fl, True), "if_nids": [names.nid(fl, True), names.nid(fl, True)],
+              "if_labels": good, "kw": []}
+        if bad:
+            f = rng.choice(["bad-label", "short-labels", "dup-iface-id"])
+            op["fault"] = f
+            if f == "bad-label":
+                op["if_labels"][rng.randrange(2)] = rng.choice([["str", "x"], ["cap", {"bw": 1}], ["int", 3]])
+            elif f == "short-labels":
+                op["if_labels"] = good[:1]
+            elif f == "dup-iface-id" and ifaces:
+                op["if_nids"][rng.randrange(2)] = rng.choice(ifaces).obj.node_id
+        return op
     if k == "add_node_nsinfo":
         taken = rng.choice(nodes + svcs + ifaces).obj.node_id if bad else names.nid(fl, True)
         return {"op": "add_node_nsinfo", "name": names.new("n"), "nid": names.nid(fl, True), "ns_nid": taken, "fault": "taken-nested-id" if bad else None}
@@ -360,6 +396,13 @@ def gen_op_x(rng, sess, names, fault=0.0, ext=False, oracle_only=False, px=0.22)
         cand = [h for h in sps if h.obj.node_id not in own] or sps
         return {"op": "add_link", "name": names.new("xl"), "nid": names.nid(fl), "ltype": rng.choice(["L2Path", "Patch"]),
                 "ifs": [a.key, rng.choice(cand).key], "kw": [], "fault": "second-sp-peer"}
+    if k == "node_remove_service":
+        # Node.remove_network_service: of a switch / facility / node that has a service of its own, or a name it does not have
+        withsvc = [(h, n) for h in nodes for n in T._svc_child_names(h)]
+        if withsvc and not bad:
+            h, n = rng.choice(withsvc)
+            return {"op": "node_remove_service", "parent": h.key, "name": n}
+        return {"op": "node_remove_service", "parent": rng.choice(nodes).key, "name": "no-such-service", "fault": "no-such-name"}
     if k == "remove_wrong_type":
         which = rng.choice(["remove_facility", "remove_switch"])
         want = {"remove_facility": "Facility", "remove_switch": "Switch"}[which]
